@@ -61,3 +61,46 @@ Proof.
   change (odiv O) with (@cdiv K). field. exact Hchar.
 Qed.
 End Leak.
+
+(* ---------------------------------------------------------------- the hypotheses can be met *)
+Require Import QArith Qcanon LV.Base.QcI.
+Local Open Scope nat_scope.
+
+Lemma onat_qre_ge (n : nat) : (Q2Qc 0 <= qre (onat (ops_of QIF) n))%Qc.
+Proof.
+  induction n as [|n IH]; [cbn; unfold Qcle, Qle; cbn; lia|].
+  change (onat (ops_of QIF) (S n)) with (qi_add (onat (ops_of QIF) n) qi1). cbn [qi_add qre qi1].
+  replace (Q2Qc 0) with (Q2Qc 0 + Q2Qc 0)%Qc by (apply Qc_is_canon; reflexivity).
+  apply Qcplus_le_compat; [exact IH | unfold Qcle, Qle; cbn; lia].
+Qed.
+
+Lemma onat_qif_nonzero : forall n : nat, n <> 0%nat -> onat (ops_of QIF) n <> @c0 QIF.
+Proof.
+  intros [|n] Hn; [contradiction|]. intros Hz.
+  assert (H1 : (Q2Qc 1 <= qre (onat (ops_of QIF) (S n)))%Qc).
+  { change (onat (ops_of QIF) (S n)) with (qi_add (onat (ops_of QIF) n) qi1). cbn [qi_add qre qi1].
+    replace (Q2Qc 1) with (Q2Qc 0 + 1)%Qc by (apply Qc_is_canon; reflexivity).
+    apply Qcplus_le_compat; [apply onat_qre_ge | unfold Qcle, Qle; cbn; lia]. }
+  rewrite Hz in H1. revert H1. unfold Qcle, Qle. cbn. lia.
+Qed.
+
+(* two double-reflect standards on a 2x2 UE10 calibration, both with m12 = 1/4 + i/8:
+   the hypotheses of leak_mean_exact_lemma hold and the mean exists *)
+Definition lk_x : qi := mkqi 1 4 1 8.
+Definition lk_meas : measurement := mkMeas [true; true; true; true] [] (Some [true; false; false; true]) [].
+Definition lk_ms : list (mvals (ops_of QIF)) :=
+  [mkMV (ops_of QIF) lk_meas [mkqi 1 2 0 1; lk_x; mkqi 3 1 0 1; mkqi 0 1 1 1];
+   mkMV (ops_of QIF) lk_meas [mkqi 5 7 0 1; lk_x; mkqi 2 1 0 1; mkqi 1 1 1 1]].
+
+Example leak_mean_exact_nonvacuous :
+  (forall mv, In mv lk_ms -> sampled QIF 2 2 mv 0 1 = true -> g (ops_of QIF) (mv_m _ mv) (0 * 2 + 1) = lk_x) /\
+  (forall n : nat, n <> 0%nat -> onat (ops_of QIF) n <> @c0 QIF) /\
+  exists v, leak_mean (ops_of QIF) 2 2 lk_ms (0, 1) = Some v.
+Proof.
+  split; [|split; [exact onat_qif_nonzero|]].
+  - intros mv [<-|[<-|[]]] _; reflexivity.
+  - destruct (leak_mean (ops_of QIF) 2 2 lk_ms (0, 1)) as [v|] eqn:E; [exists v; reflexivity|].
+    exfalso. assert (H : match leak_mean (ops_of QIF) 2 2 lk_ms (0, 1) with Some _ => true | None => false end = true)
+      by (vm_compute; reflexivity).
+    rewrite E in H. discriminate.
+Qed.
